@@ -882,10 +882,28 @@ class Extractor:
             self.map_collect_edits(sf, body, spec, edits, q, origin_fn)
         if not base:
             self.closure_rewrites(sf, body, spec, edits, q, origin_fn)
+        self.lint_dropped_tokens(sf, edits, q)
         segs = self.render(sf, it.start, it.end, self.dedup(edits))
         finfo['gen_start'] = len(self.out.lines) + 1
         self.out.add_segments([(indent, {'kind': 'gen'})] + segs)
         finfo['gen_end'] = len(self.out.lines)
+
+    # adapter / macro names a control-flow rewrite rule is allowed to drop: they are what the rule desugars (DESIGN.md 3.1); everything else it removes from the source
+    # must reappear in the text it inserts - otherwise the verified text would no longer say what the code says (the R6 `take(K)` hole of round 7)
+    DROPPABLE = {'_', 'iter', 'iter_mut', 'into_iter', 'enumerate', 'take', 'map', 'collect', 'filter', 'partition', 'format', 'tqdm', 'in', 'for', 'let', 'mut'}
+
+    def lint_dropped_tokens(self, sf, edits, q):
+        src = sf.src
+        inserted = ' '.join(e[2] for e in edits if e[2])
+        words = set(re.findall(r'[A-Za-z_][A-Za-z0-9_]*|\d+', inserted))
+        for e in edits:
+            origin = e[3] or {}
+            if e[0] >= e[1] or origin.get('kind') != 'rule' or origin.get('rule') not in ('R4', 'R5', 'R6', 'R14', 'R15', 'R16', 'R17'):
+                continue
+            for tok in re.findall(r'[A-Za-z_][A-Za-z0-9_]*|\d+', src[e[0]:e[1]]):
+                if tok not in self.DROPPABLE and tok not in words:
+                    raise Unsupported("%s: rewrite rule %s would drop the source token `%s` (%s:%d) without putting it back: the verified text would not say what the code says"
+                                      % (q, origin.get('rule'), tok, sf.rel, sf.line_of(e[0])))
 
     def loop_guard_edits(self, sf, body, edits, q):
         """R4: `(A) & (B)` in a while guard -> `(A) && (B)`."""
